@@ -202,6 +202,21 @@ func (fx *fexec) enterLoop(li *loopInfo, cur *State) *State {
 		if !ok {
 			continue
 		}
+		// a phi whose back-edge operands are all the phi itself is not modified by the loop
+		unchanged := true
+		for i, p := range h.Preds {
+			if h.Dominates(p) && phi.Edges[i] != ssa.Value(phi) {
+				unchanged = false
+			}
+		}
+		if unchanged {
+			if ev.T.S != "" {
+				ev.T = vc.define(phi.Name(), ev.T)
+			}
+			ev.Ty = vc.resolve(phi.Type())
+			fx.env[phi] = ev
+			continue
+		}
 		if ev.T.S == "" {
 			panic(engErr("loop-carried non-term value " + phi.Name()))
 		}
